@@ -31,11 +31,13 @@ package redisemu
 
 //@ func fnClientUnblock
 //@ guards on
-//@ prop C12
+//@ prop C12 C20
 //@ safetyprop none
+//@ requires ctx != nil && ctx.cs != nil
 //@ requires free registry: forall k int64 :: haskey(clients, k) ==> clients[k] != nil
 //@ modifies *
 //@ ensures internal [C12] reply.missing: !exists ==> output.data == respInt(0)
+//@ ensures internal [C20] other.emulator: client != nil && client.dss != ctx.cs.dss ==> output.data == respInt(0) && gUnblockCalls == old(gUnblockCalls)
 //@ ensures internal [C12] reply.blocked: exists ==> output.data == respInt(ite(old(client.blocked) == CS_CAPTURED, 1, 0))
 
 // the blocking worker: try, register, try again, only then wait; never register or wait under MULTI/EXEC
